@@ -198,6 +198,30 @@ def run(chk, scratch):
                         w.make_read(t.chrom, list(t.exons), name=name, flag=(first if j == 0 else 256), mapq=60,
                                     truth={"multimap": True, "class": "mm-two-isoforms-of-one-gene"})
                 n_iso_pairs += 1
+        # a splice site seen ONLY in retained alignments that stay flagged as multi-mapped (secondary record in a gene wins over an unspliced
+        # primary record in a gene-free stretch), 4 bp from an unannotated site seen in fewer uniquely mapped reads: transcript construction
+        # ignores reads flagged as multi-mapped, so no model may carry the site of the multi-mapped reads
+        n_mmsite = 0
+        for g in w.genes:
+            ts = [t for t in g.transcripts if len(t.exons) >= 4 and t.exons[1][1] - t.exons[1][0] >= 160]
+            if len(g.transcripts) == 1 and ts and n_mmsite < 3 and not g.id.startswith(("P", "Z")) and g.id != "G1_1":
+                t = ts[0]
+                ex = list(t.exons)
+                free = world2._free_pos(w, g.chrom, 1500)
+                if free + 1200 > w.chrom_len(g.chrom):
+                    continue
+                tail = {"polya": 30, "flag": 0} if t.strand == "+" else {"polyt": 30, "flag": 16}
+                nov = [ex[0], (ex[1][0], ex[1][1] - 60)] + ex[2:]
+                nov_mm = [ex[0], (ex[1][0], ex[1][1] - 56)] + ex[2:]
+                for k in range(4):
+                    w.make_read(g.chrom, nov, truth={"class": "novel-site-uniquely-mapped", "src": t.id}, **tail)
+                for k in range(7):
+                    name = "mmsite%02d_%d" % (n_mmsite, k)
+                    w.make_read(g.chrom, [(free + 30 * k, free + 800)], name=name, flag=0, mapq=60, truth={"multimap": True, "class": "mmsite-primary-unspliced"})
+                    w.make_read(g.chrom, nov_mm, name=name, mapq=60, truth={"multimap": True, "class": "mmsite-secondary", "src": t.id},
+                                **dict(tail, flag=tail["flag"] | 256))
+                n_mmsite += 1
+        chk.count("loci_with_a_site_seen_only_in_multimapped_reads", n_mmsite)
         pipeline.write_world(w, d0)
         variants = [("v0", d0, [])]
         dv = os.path.join(scratch, "w%d_v1" % wi)
@@ -302,6 +326,33 @@ def run(chk, scratch):
             mrd = defaultdict(set)
             for read, m in o.model_reads():
                 mrd[read].add(m)
+            # transcript construction: every intron of a novel model occurs in the corrected alignment of some read that is NOT flagged as
+            # multi-mapped (one BAM record, or several of which the primary one is the only retained alignment)
+            n_records = defaultdict(int)
+            primary_at = {}
+            for rd in w.reads:
+                if not rd.flag & 4:
+                    n_records[rd.name] += 1
+                    if not rd.flag & 0x900:
+                        primary_at[rd.name] = (rd.chrom, rd.pos0 + 1)
+            counted_introns = defaultdict(set)
+            bed_recs = o.bed()
+            for b in bed_recs:
+                loci = set((c, e[0][0] if e else None) for c, e, i, t in recs.get(b.name, ()))
+                single = n_records[b.name] <= 1
+                prim_only = len(loci) == 1 and primary_at.get(b.name, (None, -1))[0] == b.chr and abs(primary_at[b.name][1] - (b.start + 1)) <= 40 if b.name in primary_at else False
+                if single or prim_only:
+                    counted_introns[b.chr] |= set(parse.introns_of(b.exons()))
+            mdl = o.models()
+            ref_ids = set(t.id for t in w.all_transcripts())
+            for tid, t in mdl.transcripts.items():
+                if tid in ref_ids:
+                    continue
+                for intr in parse.introns_of(sorted(t["exons"])):
+                    chk.count("novel_model_introns_traced_to_reads")
+                    if intr not in counted_introns[t["chr"]]:
+                        chk.violation("novel-model-intron-seen-only-in-multimapped-reads", "%s: intron %s:%d-%d of %s occurs in no corrected alignment of a read that is "
+                                      "not flagged as multi-mapped" % (desc, t["chr"], intr[0], intr[1], tid), wit)
             per_variant[name] = (recs, bed, mrd)
             # losers suppressed everywhere: BED loci = TSV loci for multi-mapped reads
             mm_reads = set(rd.name for rd in w.reads if rd.truth.get("multimap"))
